@@ -111,11 +111,13 @@ package argmapper
 //@   requires a != nil
 //@   ensures  result == nil && forall(x, *argBuilder, imp(x != a, x.convs == old(x.convs)))
 //@   assigns  argBuilder.convs, []*Func
+//@   loop 1 invariant forall(x, *argBuilder, imp(x != a, x.convs == old(x.convs)))
 
 //@ func ConverterGen$1
 //@   requires a != nil
 //@   ensures  result == nil && forall(x, *argBuilder, imp(x != a, x.convGens == old(x.convGens)))
 //@   assigns  argBuilder.convGens, []ConverterGenFunc
+//@   loop 1 invariant forall(x, *argBuilder, imp(x != a, x.convGens == old(x.convGens)))
 
 //@ func FilterInput$1
 //@   requires a != nil
